@@ -1,10 +1,11 @@
 SPECIFICATION Spec
 CONSTANTS
-  Escape = FALSE
-  MaxLen = 3
-  Alias = FALSE
+  Escape = TRUE
+  MaxLen = 2
+  Alias = TRUE
   Alphabet = {"a", "b", "dot", "star", "paren"}
 INVARIANT Isolation
 INVARIANT AddServerTotal
+INVARIANT ListsEqualServer
 PROPERTY RemoveExactlyOwned
 CHECK_DEADLOCK FALSE
